@@ -69,8 +69,8 @@ func layeringCase(prop string, seed int64, tier string, idx int, layerer int) *c
 		c.Family, c.Edges = g.Family, gen.Names(g)
 	case 6:
 		g := gen.Slack(r)
-		if r.Intn(2) == 0 {
-			g = gen.Hub(r)
+		if layerer == 0 && r.Intn(3) == 0 {
+			g = gen.Hub(r) // aimed at the pivot rule of the network simplex; pointless (and slow) with longest-path layering
 		}
 		c.Family, c.Edges = g.Family, gen.Names(g)
 	case 1, 2:
